@@ -1111,6 +1111,11 @@ def rules(rep, facts):
         from .rules_c04 import r5_from_slice
         r5_from_slice(rep, facts)
         rep.relabel('C04/R5', 'C01/R7b', 'the byte entry point gives the verdict of the text entry points (invalid UTF-8 is not a TOML document): ')
+    if 'unbounded' not in set(facts.crates.get('toml_edit', {}).get('features', [])):
+        # a container level charged twice halves the depth of the documents that are accepted
+        from .rules_c05 import r1b_charged_once
+        r1b_charged_once(rep, g)
+        rep.relabel('C05/R1b', 'C01/R12', 'valid documents nested below the documented limit are accepted: ')
     if 'toml_datetime' in facts.crates:
         # the serde front end re-parses every date-time with the standalone parser: its verdicts must be the grammar's
         from .rules_c12 import r1_fields, r2_calendar, r7_shapes
